@@ -55,7 +55,10 @@ def run(res, replay=None):
                     kind, k = job
                     if kind == "nested":
                         img = image_at(rtrace, k, base=base)
-                        out = restart_on(img, TABLES, mem_kb=RMEM)
+                        # a third of the nested images (and every one cut right after the log truncation) also get the durability
+                        # follow-up: commit new work after the repeated recovery, crash, restart, look for it
+                        dur = (k > 0 and rtrace[k - 1][0] == "G") or (k % 3 == 1)
+                        out = restart_on(img, TABLES, mem_kb=RMEM, durability=dur)
                         if out["status"] == "ok" and rng.random() < 0.15:
                             # depth 3: crash the second recovery at its first page write boundary as well
                             o2 = restart_on(img, TABLES, mem_kb=RMEM, probe=False, want_trace=True)
@@ -75,7 +78,7 @@ def run(res, replay=None):
                             return job, o
                         img = image_at(t2, len(t2), base=img)
                         out = o
-                    return job, restart_on(img, TABLES, mem_kb=RMEM)
+                    return job, restart_on(img, TABLES, mem_kb=RMEM, durability=True)
                 for (kind, k), out in parallel(one, jobs):
                     nontriv = kind == "nested" and any(e[0] == "P" for e in rtrace[:k])
                     res.note_case("%s|%d|%s|%d" % (" ".join(h.desc), p, kind, k), nontriv)
@@ -84,6 +87,8 @@ def run(res, replay=None):
                         bad = "restart after an interrupted recovery fails: %s" % out.get("detail", out["status"])
                     elif "probe" in out and out.get("probe") != "ok":
                         bad = "database restarted after an interrupted recovery does not accept statements: %s" % out.get("probe")
+                    elif out.get("durability", "ok") != "ok":
+                        bad = out["durability"]
                     elif not any(all(out["rows"][t] == states[j][t] for t in TABLES) for j in allowed if j < len(states)):
                         bad = "tables after the repeated recovery differ from the transactions committed before the first crash: " + "; ".join(
                             "%s: engine %s | committed %s" % (t, out["rows"][t][:300], states[js[0]][t][:300]) for t in TABLES if out["rows"][t] != states[js[0]][t])
